@@ -105,3 +105,54 @@ pub proof fn lemma_join_hi(v1: u8, v2: u8, n: u32, n2: u32)
     assert(1 <= n && 1 <= n2 && n + n2 < 8 && (v1 >> (n as u8)) == 0u8 && (v2 >> (n2 as u8)) == 0u8 ==>
         (((v1 << (n2 as u8)) | v2) >> ((n + n2) as u8)) == 0u8) by (bit_vector);
 }
+
+// byte-aligned append: the buffer after `extend_from_slice` holds both bit sequences back to back
+pub proof fn lemma_append_aligned(c: Seq<u8>, tb: Seq<u8>, ts: int, te: int, s: int, e: int, nb: Seq<u8>)
+    requires
+        0 <= s <= e, e % 8 == 0, c.len() == e / 8,
+        0 <= ts <= te <= 8 * tb.len(), ts % 8 == 0, te % 8 == 0,
+        nb == c + tb.subrange(ts / 8, te / 8),
+    ensures
+        bits_of(nb, s, e + (te - ts)) == bits_of(c, s, e) + bits_of(tb, ts, te)
+{
+    let l = bits_of(nb, s, e + (te - ts));
+    let r = bits_of(c, s, e) + bits_of(tb, ts, te);
+    assert(l.len() == r.len());
+    assert forall|k: int| 0 <= k < l.len() implies l[k] == r[k] by {
+        if k < e - s {
+            assert(nb[(s + k) / 8] == c[(s + k) / 8]);
+        } else {
+            let q = k - (e - s);
+            assert((e + q) / 8 == e / 8 + q / 8 && (e + q) % 8 == q % 8);
+            assert((ts + q) / 8 == ts / 8 + q / 8 && (ts + q) % 8 == q % 8);
+            assert(nb[(e + q) / 8] == tb[(ts + q) / 8]);
+        }
+    }
+    assert(l =~= r);
+}
+
+// what `truncate(ubi(e))` followed by masking the last partial byte leaves behind
+pub open spec fn cleared(old_bytes: Seq<u8>, c: Seq<u8>, s: int, e: int) -> bool {
+    &&& c.len() == ubi(e)
+    &&& forall|p: int| s <= p < e ==> bit_at(c, p) == bit_at(old_bytes, p)
+    &&& forall|p: int| e <= p < 8 * c.len() ==> !bit_at(c, p)
+}
+
+pub proof fn lemma_cleared(old_bytes: Seq<u8>, t: Seq<u8>, c: Seq<u8>, s: int, e: int)
+    requires
+        0 <= s <= e <= 8 * old_bytes.len(),
+        t == old_bytes.take(ubi(e)),
+        e % 8 == 0 ==> c == t,
+        e % 8 > 0 ==> c.len() == t.len() && (forall|i: int| 0 <= i < t.len() && i != e / 8 ==> c[i] == t[i])
+            && (forall|i: int| 0 <= i < 8 ==> #[trigger] byte_bit(c[e / 8], i) == (i < e % 8 && byte_bit(t[e / 8], i))),
+    ensures cleared(old_bytes, c, s, e)
+{
+    assert forall|p: int| s <= p < e implies bit_at(c, p) == bit_at(old_bytes, p) by {
+        assert(t[p / 8] == old_bytes[p / 8]);
+        if e % 8 > 0 && p / 8 == e / 8 { } else { assert(c[p / 8] == t[p / 8]); }
+    }
+    assert forall|p: int| e <= p < 8 * c.len() implies !bit_at(c, p) by {
+        assert(p / 8 == e / 8);
+        assert(e % 8 > 0);
+    }
+}
